@@ -10,7 +10,8 @@ Executable model (core Lean only) of
 * `OSMAPOSLReconstruction::set_up` (the part that touches the image, l.291-292),
   `::update_estimate` (l.373-512), `::apply_multiplicative_update` (l.356-369)
                                                         src/iterative/OSMAPOSL/OSMAPOSLReconstruction.cxx
-* `IterativeReconstruction::get_subset_num` (fixed order, l.637-638), `::reconstruct(target)` loop (l.414-419),
+* `IterativeReconstruction::set_up` range checks (l.440-487), `::get_subset_num` (fixed order, l.637-638),
+  `::reconstruct(target)` loop (l.414-419),
   `::end_of_iteration_processing` (inter-iteration filter, l.545-550)
                                                         src/recon_buildblock/IterativeReconstruction.cxx
 
@@ -216,5 +217,15 @@ def reconstruct (c : Cfg) (start last : Nat) (img : Img) : List Img := runFrom c
 /-- what `OSMAPOSLReconstruction::set_up` does to the start image (l.291-292) -/
 def setUp (c : Cfg) (img : Img) : Img :=
   if c.enforceInitialPositivity then thresholdMinToSmallPositive img smallNum else img
+
+/-- the range checks of `IterativeReconstruction::set_up` (IterativeReconstruction.cxx:440-487) and
+    `OSMAPOSLReconstruction::set_up` (OSMAPOSLReconstruction.cxx:294-298): `true` = accepted.  (Whether the subsets are
+    balanced is a separate refusal, property C06.)  `set_start_subset_num` makes the same check on its argument. -/
+def setUpRangesOk (numSubsets startSubset numSubiterations startSubiteration saveInterval
+    interIterationInterval interUpdateInterval : Int) : Bool :=
+  decide (1 ≤ numSubsets) && decide (1 ≤ numSubiterations) &&
+  decide (0 ≤ startSubset) && decide (startSubset < numSubsets) &&
+  decide (1 ≤ saveInterval) && decide (saveInterval ≤ numSubiterations) &&
+  decide (0 ≤ interIterationInterval) && decide (1 ≤ startSubiteration) && decide (0 ≤ interUpdateInterval)
 
 end StirVerif.C07
